@@ -1,8 +1,9 @@
 package main
 
 // C18: reflecttools.Map / Any / ZipReduce / IsNil against the model coq/Reflect.v, plus direct oracles
-// (identity-Map deep equality, fresh result container, argument unwritten, one call per child,
-// Any == naive loop, ZipReduce == naive fold with early exit).
+// (identity-Map deep equality incl. nil-stays-nil, no panic, keys with nil values kept, fresh result container
+// for non-nil containers, argument unwritten, one call per child, untyped-nil results stored as the slot's zero
+// value, Any == naive loop, ZipReduce == naive fold with early exit).
 
 import (
 	"fmt"
@@ -52,7 +53,7 @@ var c18Types = []reflect.Type{
 	typeOf18[*T18](), typeOf18[*T18](), typeOf18[*U18](), typeOf18[*W18](), typeOf18[*E18](),
 	typeOf18[[]any](), typeOf18[map[string]any](),
 	typeOf18[*int](), typeOf18[int](), typeOf18[string](),
-	typeOf18[S18](), typeOf18[**S18](), typeOf18[*[]int](),
+	typeOf18[S18](), typeOf18[**S18](), typeOf18[*[]int](), typeOf18[*any](),
 }
 
 // dynamic types put into interface-typed slots
@@ -64,6 +65,7 @@ var c18IfaceTypes = []reflect.Type{
 
 const (
 	g18Nil = iota
+	g18Iface // an interface-typed slot holding kids[0]
 	g18NilPtr
 	g18StructPtr
 	g18Ptr
@@ -90,16 +92,42 @@ func key18(s string) uint64 {
 	return n
 }
 
-func str18(n int64) string { return "s" + strconv.FormatInt(n, 10) }
+// strings of the family: "" for 0 (the zero value), "s<n>" otherwise
+func str18(n int64) string {
+	if n == 0 {
+		return ""
+	}
+	return "s" + strconv.FormatInt(n, 10)
+}
 func strVal18(s string) int64 {
+	if s == "" {
+		return 0
+	}
 	n, err := strconv.ParseInt(strings.TrimPrefix(s, "s"), 10, 64)
-	if err != nil || !strings.HasPrefix(s, "s") {
+	if err != nil || !strings.HasPrefix(s, "s") || n == 0 {
 		panic("c18: string outside the family: " + s)
 	}
 	return n
 }
 
+// enc18 encodes the dynamic value of an any (never a g18Iface at the top).
 func enc18(x any) gv18 { return encV18(reflect.ValueOf(x)) }
+
+// unwrap18 is Value.Interface() of a slot.
+func unwrap18(g gv18) gv18 {
+	if g.tag == g18Iface {
+		return g.kids[0]
+	}
+	return g
+}
+
+func unwrapAll18(l []gv18) []gv18 {
+	out := make([]gv18, len(l))
+	for i, g := range l {
+		out[i] = unwrap18(g)
+	}
+	return out
+}
 
 func encV18(v reflect.Value) gv18 {
 	if !v.IsValid() {
@@ -110,7 +138,7 @@ func encV18(v reflect.Value) gv18 {
 		if v.IsNil() {
 			return gv18{tag: g18Nil}
 		}
-		return encV18(v.Elem())
+		return gv18{tag: g18Iface, kids: []gv18{encV18(v.Elem())}}
 	case reflect.Ptr:
 		if v.IsNil() {
 			return gv18{tag: g18NilPtr}
@@ -161,6 +189,8 @@ func (g gv18) coq() string {
 	switch g.tag {
 	case g18Nil:
 		return "GNil"
+	case g18Iface:
+		return "(GIface " + g.kids[0].coq() + ")"
 	case g18NilPtr:
 		return "GNilPtr"
 	case g18StructPtr:
@@ -194,6 +224,8 @@ func (g gv18) String() string {
 	switch g.tag {
 	case g18Nil:
 		return "nil"
+	case g18Iface:
+		return "any(" + g.kids[0].String() + ")"
 	case g18NilPtr:
 		return "nilptr"
 	case g18StructPtr:
@@ -594,7 +626,7 @@ func (p *pfun18) eval(g gv18) bool {
 	case 5:
 		return (g.tag == g18Slice || g.tag == g18Map || g.tag == g18StructPtr) && int64(len(g.kids)) >= p.n
 	default:
-		return g.tag == g18StructPtr && int64(len(g.kids)) > p.n && p.sub.eval(g.kids[p.n])
+		return g.tag == g18StructPtr && int64(len(g.kids)) > p.n && p.sub.eval(unwrap18(g.kids[p.n]))
 	}
 }
 
@@ -627,6 +659,8 @@ func weight18(g gv18) int64 {
 	switch g.tag {
 	case g18Nil:
 		return 1
+	case g18Iface:
+		return 9
 	case g18NilPtr:
 		return 2
 	case g18StructPtr:
@@ -815,6 +849,8 @@ func naiveIsNil18(x any) bool {
 	case **S18:
 		return v == nil
 	case *[]int:
+		return v == nil
+	case *any:
 		return v == nil
 	}
 	return false
@@ -1054,7 +1090,7 @@ func runC18(cfg *Config) *Report {
 			kenc[j] = enc18(k)
 		}
 		// self-test of the encoder against the type-switch view of the family
-		if tag != 0 && !sameList18(kenc, gx.kids) {
+		if tag != 0 && !sameList18(kenc, unwrapAll18(gx.kids)) {
 			note("enc", fmt.Sprintf("encoder self-test failed on %s", desc18(x)))
 		}
 		shape := []string{"other", "structptr", "slice", "map"}[tag]
